@@ -80,16 +80,16 @@ RankSelectionPrefersBetter ==
 (* ------------- conformance with the design model (drift, not verdicts) -------------- *)
 RankFollowsModel ==
   (IsRank /\ cur.rt = "ok" /\ ~T.share) =>
-     /\ \/ cur.fronts = Fronts(T.P, cur.goals, cur.pop, cur.coins, TRUE)
-        \/ cur.fronts = Fronts(T.P, cur.goals, cur.pop, cur.coins, FALSE)
-     /\ cur.nb = ZeroFront(T.P, cur.goals, cur.coins).u
+     LET zf == ZeroFront(T.P, cur.goals, cur.coins)
+     IN /\ cur.nb = zf.u
+        /\ \/ cur.fronts = FrontsFrom(T.P, UG, zf.z, cur.pop, TRUE)     \* the code as it is
+           \/ Len(zf.z) >= cur.pop /\ cur.fronts = FrontsFrom(T.P, UG, zf.z, cur.pop, FALSE)
 RankAttrFollowsModel ==
   (IsRank /\ cur.rt = "ok" /\ ~T.share) =>
      \A k \in DOMAIN cur.fronts : \A i \in ElemsOf(cur.fronts[k]) : cur.rk[i] = k - 1
 CrowdFollowsModel ==
   (IsCrowd /\ cur.rt = "ok") =>
-     \A k \in DOMAIN cur.cf : \A m \in DOMAIN cur.cf[k] :
-        cur.dn[k][m] = CrowdNum(T.P, UG, cur.cf[k], cur.cf[k][m])
+     \A k \in DOMAIN cur.cf : cur.dn[k] = CrowdNums(T.P, UG, cur.cf[k])
 SelOnBoundary(n, p, q, k, K) == \E i \in 0..n : K * (p * i * n - (p - q) * i * i) = k * q * n * n
 SelectFollowsModel ==
   (IsSelect /\ cur.rt = "int" /\ T.bias.kind = "ratio" /\ T.bias.p > T.bias.q /\ cur.d.kind = "grid") =>
